@@ -17,8 +17,8 @@ type c10Case struct {
 	Stack    StackCfg `json:"stack"`
 	Outcomes []int    `json:"outcomes"` // one releasing holder per entry (completion outcome)
 	Waiters  int      `json:"waiters"`
-	Order    []int    `json:"order"`  // spawn order: actor ids 0..H-1 = holders, H..H+W-1 = waiters
-	Yields   []uint8  `json:"yields"` // yield counts at successive schedule points
+	Order    []int    `json:"order"`            // spawn order: actor ids 0..H-1 = holders, H..H+W-1 = waiters
+	Yields   []uint8  `json:"yields"`           // yield counts at successive schedule points
 	Ghosts   int      `json:"ghosts,omitempty"` // blocking/deadline kinds: earlier callers that blocked and gave up (cancelled) before the scenario
 }
 
